@@ -50,11 +50,13 @@ check was strengthened (per round, missed at first: 3 of 19, 8 of 16, 6 of 12, 9
 coverage gate and the pinned inventories in place — of the 12 round-10 misses those two mechanisms alone report 6).
 Every miss was a gap in a generator (an input class nobody generated) or in a judge (a difference computed but
 attributed to another property only); **no miss was a wrong theorem, and no strengthening loosened anything**.
-After each round the kept changes were re-run (`vf/seedtest.py` over `seeded/*`); after round 11, with the machinery as
-committed at the end (plain-build verdicts, statement-based coverage gate, per-file pins), {len(rerun)} of the {n} were re-run — the
-76 changes of rounds 10 and 11, and as many of the older ones as the remaining time allowed, in random order
-(`notes/regression-final-ids.txt`) — and all of those are reported; the other {n - len(rerun)} carry the result of the
-regression after round 9 (every generator change since then only adds inputs){"" if not undetected else "; not reported: " + ", ".join(undetected)}.
+After each round the kept changes were re-run (`vf/seedtest.py` over `seeded/*`); after round 11 all {n} were re-run
+with plain-build verdicts, six scratch copies side by side (`notes/regression-final-ids.txt`; the first 125 before the pins
+were changed to their per-file normal forms — the ten of those that had been reported by a pinned table only were run
+again afterwards — the other 225 with the machinery exactly as committed){"" if not undetected else "; not reported: " + ", ".join(undetected)}.
+Two changes are kept under another property than the one their author aimed at: C05-p (a backend change that breaks
+C01, not the client/server agreement) and C17-h (it relied on the defect repaired by 7e3e4e3 to disclose the host path;
+it still breaks C01).
 How a change is reported: most by a judged violation class with a counterexample replay; table- or shape-changing ones
 also (or only) by a proof obligation over the regenerated definitions or pinned tables (Tie A: `theorems=k/N`, e.g.
 C18-d's package variable, C14-h's second receive on the upload channel, C14-p's new `s[0]`); some by a correspondence
